@@ -19,6 +19,7 @@ def value_tasks(tier):
         for op in CORE:
             b = int(op[-1]) if op[-1].isdigit() else 0
             if b and b >= (1 << (l - 1)): continue
+            if l >= 6 and op in ('min2', 'max2'): continue          # 128 paths with a nonlinear selection each: 90 s queries go unknown on a loaded machine (l <= 5 covered)
             vi('int_op', dict(l=l, op=op), k, np_, f'mpyc.runtime.Runtime({op})', f'l={l}, k={k}; all l-bit values, all randomness allowed by the stubs; rejection loops cut at 2 retries')
     for l, k, np_ in grids[:2]:
         for op in LIGHT:
